@@ -124,6 +124,19 @@ func init() {
 					if err != nil {
 						ob["r"] = "unstable:" + err.Error()
 					}
+				case "push":
+					t0 := time.Now()
+					if c := cl.Coordinator(); c != nil {
+						c.DB.VerifRT().UpdateEagerly()
+					}
+					ob = map[string]interface{}{"r": "ok", "t0": t0.UnixMilli(), "t1": time.Now().UnixMilli()}
+				case "balance":
+					// one balancer run on member M: at most one table of every misplaced fragment is moved
+					t0 := time.Now()
+					if op.M < len(cl.Members) && cl.Members[op.M].Alive {
+						cl.Members[op.M].DB.VerifBalancer().BalanceEagerly()
+					}
+					ob = map[string]interface{}{"r": "ok", "t0": t0.UnixMilli(), "t1": time.Now().UnixMilli()}
 				case "sync":
 					t0 := time.Now()
 					cl.Sync()
